@@ -180,6 +180,11 @@ impl Repr {
             self as *const _ as *const u8
         };
 
+        #[cfg(feature = "verif-hooks")]
+        if self.is_heap_buffer() {
+            crate::verif_hooks::note(crate::verif_hooks::Note::Read, ptr, len);
+        }
+
         // SAFETY: data (`ptr`) is valid, aligned, and part of the same contiguous allocated `len`
         // chunk
         unsafe { slice::from_raw_parts(ptr, len) }
@@ -653,6 +658,8 @@ impl Repr {
             // SAFETY: We just checked that `self` is HeapBuffer
             let heap = unsafe { self.as_heap_buffer() };
             debug_assert!(heap.is_unique());
+            #[cfg(feature = "verif-hooks")]
+            crate::verif_hooks::note(crate::verif_hooks::Note::WriteWindow, ptr, heap.capacity());
             (ptr, heap.capacity())
         } else {
             let ptr = self as *mut _ as *mut u8;
@@ -754,4 +761,20 @@ impl Repr {
         // SAFETY: A `Repr` is transmuted from `StaticBuffer`
         unsafe { &mut *(self as *mut _ as *mut StaticBuffer) }
     }
+
+    /// Verification observer: the reference count of the heap buffer, `None` if not on the heap.
+    #[cfg(feature = "verif-hooks")]
+    pub(crate) fn verif_refcount(&self) -> Option<usize> {
+        if self.is_heap_buffer() {
+            // SAFETY: `self.0` is the text pointer of a heap buffer.
+            Some(unsafe { HeapBuffer::verif_refcount_of_data_ptr(self.0 as *const u8) })
+        } else {
+            None
+        }
+    }
+}
+
+#[cfg(feature = "verif-hooks")]
+pub(crate) unsafe fn verif_refcount_of_data_ptr(data_ptr: *const u8) -> usize {
+    unsafe { HeapBuffer::verif_refcount_of_data_ptr(data_ptr) }
 }
